@@ -88,6 +88,19 @@ def run(rep, pdb, tier):
     allzero = [g for g, c in errs if any(alt == frozenset([iz]) for alt in g.alts)]
     rep.add("zero-divisor/empty", "division by the empty polynomial returns Err before anything else", len(empty) == 1, empty[0].node if empty else fn["body"], "")
     rep.add("zero-divisor/all-zero", "division by an all-zero polynomial returns Err before anything else", len(allzero) == 1, allzero[0].node if allzero else fn["body"], "")
+    okalts = (frozenset([EQ(LEN(CO1), num(0))]), frozenset([iz]))
+    errs_all = []
+    for g in guards:
+        if g.kind != "return":
+            continue
+        rets_ = [x for x in walk(g.node["then"]) if x.get("k") == "Ret"]
+        t_ = ctx.term(rets_[0]["e"]) if rets_ else None
+        if t_ is not None and t_[0] == "call" and str(t_[1]).endswith("::Err"):
+            errs_all.append((g, None))
+    extra = [g for g, c in errs_all if not all(alt in okalts for alt in g.alts)]
+    rep.add("zero-divisor/only", "before the loop polydiv refuses only a zero divisor (empty or all-zero): no other test turns a valid division into Err "
+            "(an `invertible leading coefficient` round-trip test fails for ordinary floats such as 49)", not extra, extra[0].node if extra else fn["body"],
+            "Err guards before the loop: %d, with another reason: %d" % (len(errs_all), len(extra)))
     # ---- no spin
     wl = [n for n in walk(fn["body"]) if n.get("k") in ("While", "For", "Loop")]
     bounded_for = False
